@@ -298,7 +298,9 @@ def coq_op(op, recl_default):
 
 def coq_hist(idx, j, r, ids, recl_default):
     ops, obs = [], []
-    for op, o in zip(j["ops"], r["obs"]):
+    pos = {}          # index of an operation in the job -> index of its model operation (rng ops expand to two)
+    for i, (op, o) in enumerate(zip(j["ops"], r["obs"])):
+        pos[i] = len(ops) + (1 if op["op"] == "rng" and op["n"] else 0)
         ob = "(%s, %s, %s, %s, %s)" % (zlit(ids("json", o.get("json"))), zlit(ids("noseed", o.get("json_noseed", o.get("json")))),
                                         zlit(ids("pred", o.get("pred"))), zlit(ids("rng", o["rng"])), zlit(o["shared"]))
         if op["op"] == "rng":
@@ -306,6 +308,9 @@ def coq_hist(idx, j, r, ids, recl_default):
             if op["n"]:
                 obs.append("(-1, -1, -1, -1, %s)" % zlit(o["shared"]))     # the state between seed() and random(n) is not observed
                 ops.append("(RngRandom %s)" % zlit(op["n"]))
+            obs.append(ob)
+        elif op["op"] == "predict":
+            ops.append("(Predict %d)" % pos[op["ref"]])
             obs.append(ob)
         else:
             ops.append(coq_op(op, recl_default))
@@ -399,7 +404,9 @@ def main():
     # thread pools really had the requested size (otherwise the thread contexts test nothing)
     for j, r in zip(jobs, results):
         pools = r["info"].get("pools")
-        if pools is not None and any(n != j["threads"] for _, n in pools):
+        if j["imports"] == "opendsm-first":
+            run.dist("pool sizes with the package imported before numpy, environment says %d" % j["threads"], pools)
+        elif pools is not None and any(n != j["threads"] for _, n in pools):
             run.corr_failures.append({"stream": "histories", "case": {"label": j["label"], "threads": j["threads"]},
                                       "impl": pools, "model": "pool size = environment of the process"})
     # ---- step 3: oracle
